@@ -347,6 +347,7 @@ type storageGen struct {
 	noBlock   int // steps during which no block boundary is taken (so that a burst stays in one block)
 	pg        *pager     // page requests of the query records
 	qr        *rand.Rand // a generator of its own for the query records: the message histories of a seed do not depend on them
+	noGauges  bool       // a history without any payment gauge: plans come from genesis, nothing is bought or paid once
 }
 
 func (g *storageGen) user() string { return g.users[g.r.Intn(len(g.users))] }
@@ -391,6 +392,9 @@ func (g *storageGen) next() (sdk.Msg, map[string]interface{}, func(pre, post stS
 	m := g.mix
 	tot := m.buy + m.post + m.del + m.proof + m.prov + m.forms + m.sign + m.setters
 	k := r.Intn(tot)
+	if g.noGauges && k < m.buy {
+		k = m.buy // a posting instead of a purchase
+	}
 	if g.burst > 0 && g.lastBuy != nil {
 		k = 0 // the buy branch, repeating the last purchase
 	}
@@ -518,6 +522,9 @@ func (g *storageGen) next() (sdk.Msg, map[string]interface{}, func(pre, post stS
 			}
 		} else if r.Intn(8) == 0 {
 			expires = -int64(1 + r.Intn(5)) // non-positive Expires is plan-paid
+		}
+		if g.noGauges && expires > 0 {
+			expires = 0
 		}
 		note := `{"n":1}`
 		if r.Intn(20) == 0 {
@@ -802,6 +809,7 @@ func runStorage(profile string, seed int64, histories, steps int, out *Emitter) 
 		polRatios := [][2]int64{{40, 25}, {40, 25}, {30, 20}, {10, 5}, {60, 40}, {0, 0}, {5, 25}, {50, 50}}
 		pr := polRatios[r.Intn(len(polRatios))]
 		var seeded map[string]*dataFile
+		noGauges := profile == "proofs" && hi%4 == 1
 		mut := func(a *app.JackalApp, gs app.GenesisState, users []sdk.AccAddress) {
 			cdc := a.AppCodec()
 			sg := sttypes.DefaultGenesis()
@@ -847,6 +855,13 @@ func runStorage(profile string, seed int64, histories, steps int, out *Emitter) 
 				bg.Supply = bg.Supply.Add(sdk.NewInt64Coin("ujkl", total))
 				gs[banktypes.ModuleName] = cdc.MustMarshalJSON(&bg)
 			}
+			if noGauges {
+				// everybody holds a plan from genesis: files are posted against plans, no gauge ever exists
+				for _, u := range users {
+					sg.PaymentInfoList = append(sg.PaymentInfoList, sttypes.StoragePaymentInfo{Start: time.Unix(genesisUnix, 0).UTC(), End: time.Unix(genesisUnix, 0).UTC().AddDate(50, 0, 0),
+						SpaceAvailable: 1 << 50, SpaceUsed: 0, Address: u.String()})
+				}
+			}
 			gs[sttypes.ModuleName] = cdc.MustMarshalJSON(sg)
 			mg := minttypes.DefaultGenesis()
 			mg.Params.TokensPerBlock = 0 // no emission: the stakers' pool then only moves through storage purchases
@@ -857,7 +872,7 @@ func runStorage(profile string, seed int64, histories, steps int, out *Emitter) 
 		}
 		c := NewChain(mix.users, []string{"ujkl", "utest"}, mut)
 		seenGaugeAccs = nil
-		g := &storageGen{c: c, r: r, data: map[string]*dataFile{}, mix: mix, qr: rand.New(rand.NewSource(seed*7919 + int64(hi) + 17))}
+		g := &storageGen{c: c, r: r, data: map[string]*dataFile{}, mix: mix, qr: rand.New(rand.NewSource(seed*7919 + int64(hi) + 17)), noGauges: noGauges}
 		for _, u := range c.Users {
 			g.users = append(g.users, u.String())
 		}
